@@ -171,7 +171,8 @@ func runC17(c *explore.Ctx) {
 	// lone f1 posting into a 1-hit entry that then meets postings with locations)
 	sweeps := []sweep{{3, 3, 2, 2, 0}, {3, 4, 1, 1025, 0}, {4, 3, 1, 1025, 0}, {3, 5, 1, 1025, gen.TermKindBase}}
 	if c.Thorough() {
-		sweeps = []sweep{{3, 5, 2, 2, 0}, {3, 3, 2, 1025, 0}, {3, 3, 2, 1, 0}, {4, 4, 1, 1025, 0}, {4, 3, 1, 2, 0}, {3, 5, 2, 1025, gen.TermKindBase}, {4, 5, 1, 2, gen.TermKindBase}}
+		// everything the quick tier covers comes first; the widest sweeps last (the budget may end them)
+		sweeps = []sweep{{3, 3, 2, 2, 0}, {3, 4, 1, 1025, 0}, {4, 3, 1, 1025, 0}, {3, 5, 1, 1025, gen.TermKindBase}, {3, 3, 2, 1025, 0}, {3, 3, 2, 1, 0}, {4, 5, 1, 2, gen.TermKindBase}, {4, 4, 1, 1025, 0}, {3, 5, 2, 1025, gen.TermKindBase}, {3, 5, 2, 2, 0}, {4, 3, 1, 2, 0}}
 	}
 	for _, sw := range sweeps {
 		opts := c17Opts(sw.K, sw.maxDocs, sw.base)
